@@ -165,6 +165,8 @@ class FunctionReport:
         self.paths = 0
         self.unsupported = None
         self.cover_failed = []
+        self.unreachable = 0
+        self.vacuous = []
         self.inlined = set()
         self.havocs = set()
         self.time_s = 0.0
@@ -196,10 +198,12 @@ def verify_function(eng, con, only_scenarios=None):
                 if pre is not True:
                     st.assume(pre)
                 # vacuity guard: precondition satisfiable
-                r, _ = eng.check(st.pc)
-                if r != z3.sat:
+                r, _ = eng.check(st.pc, 1000)
+                if r == z3.unsat:
                     rep.cover_failed.append((sc.name, str(r)))
                     continue
+                if r != z3.sat:
+                    rep.cover_unknown = getattr(rep, "cover_unknown", []) + [sc.name]
                 st0 = st.fork()
                 eng.cuts = []
                 outs = eng.run(ext, st, dict(argd))
@@ -207,6 +211,15 @@ def verify_function(eng, con, only_scenarios=None):
             except Unsupported as e:
                 rep.unsupported = f"{sc.name}: {e}"
                 continue
+            reachable_normal = 0
+            for pi, (kind, s2, v) in enumerate(outs):
+                r, _ = eng.check(s2.pc, 1000)
+                if r == z3.unsat:
+                    rep.unreachable += 1
+                elif kind in ("ret", "cut"):
+                    reachable_normal += 1
+            if outs and reachable_normal == 0 and not getattr(sc, "expect_raise", False):
+                rep.vacuous.append(sc.name)
             for pi, (kind, s2, v) in enumerate(outs):
                 rep.paths += 1
                 rep.inlined |= set(s2.ghost.get("inlined", ()))
